@@ -25,7 +25,7 @@ func init() {
 			}
 			return 2
 		},
-		Cases:       func(r *obs.Run) int { return r.Share(r.Pick(5000, 100000)) },
+		Cases:       func(r *obs.Run) int { return r.Share(r.Pick(15000, 100000)) },
 		Case:        c16Case,
 		MinDistinct: func(t string) int { return 2000 },
 		Floors: func(string) map[string]int64 {
@@ -92,6 +92,9 @@ func c16Gen(r *obs.Run) []c16pair {
 		a := newIv()
 		ivs = append(ivs, a)
 		b := newIv()
+		if rng.Intn(10) == 0 { // a feature paired with its own interval (a self image)
+			b = a
+		}
 		ivs = append(ivs, b)
 		p := c16pair{a, b, rng.Intn(100)}
 		if seen[c16Key(p)] {
@@ -110,7 +113,16 @@ type c16pile struct {
 	Members []string // feature ids, sorted
 }
 
-func c16Ref(pairs []c16pair, filter func(c16pair) bool) (piles []c16pile, abut, multi int) {
+// c16Name is the ID given to image side ('A' or 'B') of pair i: positional, or derived from the coordinates only (as
+// pals.ExpandFeature does), in which case the two images of a self-image pair are equal in every field.
+func c16Name(coord bool, i int, side byte, iv c16iv) string {
+	if coord {
+		return fmt.Sprintf("c%d:%d..%d", iv.Loc, iv.S, iv.E)
+	}
+	return fmt.Sprintf("p%d%c", i, side)
+}
+
+func c16Ref(pairs []c16pair, filter func(c16pair) bool, coord bool) (piles []c16pile, abut, multi int) {
 	type ft struct {
 		iv   c16iv
 		id   string
@@ -118,7 +130,7 @@ func c16Ref(pairs []c16pair, filter func(c16pair) bool) (piles []c16pile, abut, 
 	}
 	var fs []ft
 	for i, p := range pairs {
-		fs = append(fs, ft{p.A, fmt.Sprintf("p%dA", i), i}, ft{p.B, fmt.Sprintf("p%dB", i), i})
+		fs = append(fs, ft{p.A, c16Name(coord, i, 'A', p.A), i}, ft{p.B, c16Name(coord, i, 'B', p.B), i})
 	}
 	parent := make([]int, len(fs))
 	for i := range parent {
@@ -179,6 +191,10 @@ func c16Ref(pairs []c16pair, filter func(c16pair) bool) (piles []c16pile, abut, 
 func c16Case(r *obs.Run, i int) {
 	rng := r.Rng
 	pairs := c16Gen(r)
+	coordIDs := rng.Intn(4) == 0
+	if coordIDs {
+		r.Count("cases_with_coordinate_derived_ids", 1)
+	}
 	contigs := []pals.Contig{"c0", "c1", "c2"}
 	w := map[string]interface{}{"pairs": pairs}
 	fail := func(class, what string, extra interface{}) {
@@ -204,7 +220,7 @@ func c16Case(r *obs.Run, i int) {
 	// their pile. Every image is in its pile from the first Piles call on, so the filter never sees anything else.
 	hull := map[[3]int][2]int{} // (loc, start, end) of an interval -> extent of its pile
 	{
-		all, _, _ := c16Ref(pairs, nil)
+		all, _, _ := c16Ref(pairs, nil, coordIDs)
 		for _, pr := range pairs {
 			for _, iv := range []c16iv{pr.A, pr.B} {
 				for _, pl := range all {
@@ -239,7 +255,7 @@ func c16Case(r *obs.Run, i int) {
 	var abut, multi int
 	for k, f := range filters {
 		var a, m int
-		refs[k], a, m = c16Ref(pairs, f.ref)
+		refs[k], a, m = c16Ref(pairs, f.ref, coordIDs)
 		if k == 0 {
 			abut, multi = a, m
 		}
@@ -285,10 +301,11 @@ func c16Case(r *obs.Run, i int) {
 		r.Count("insertion_orders", 1)
 		p := pals.NewPiler(0)
 		feats := map[*pals.Feature]string{}
+		mateOf := map[*pals.Feature]*pals.Feature{}
 		mk := func(idx int, swap bool) *pals.Pair {
 			q := pairs[idx]
-			fa := &pals.Feature{ID: fmt.Sprintf("p%dA", idx), From: q.A.S, To: q.A.E, Loc: contigs[q.A.Loc]}
-			fb := &pals.Feature{ID: fmt.Sprintf("p%dB", idx), From: q.B.S, To: q.B.E, Loc: contigs[q.B.Loc]}
+			fa := &pals.Feature{ID: c16Name(coordIDs, idx, 'A', q.A), From: q.A.S, To: q.A.E, Loc: contigs[q.A.Loc]}
+			fb := &pals.Feature{ID: c16Name(coordIDs, idx, 'B', q.B), From: q.B.S, To: q.B.E, Loc: contigs[q.B.Loc]}
 			fp := &pals.Pair{A: fa, B: fb, Score: q.Score}
 			if swap {
 				fp.A, fp.B = fb, fa
@@ -305,6 +322,10 @@ func c16Case(r *obs.Run, i int) {
 			}
 			added = append(added, fp)
 			feats[fp.A], feats[fp.B] = fp.A.ID, fp.B.ID
+			mateOf[fp.A], mateOf[fp.B] = fp.B, fp.A
+			if pairs[idx].A == pairs[idx].B {
+				r.Count("self_image_pairs_added", 1)
+			}
 			// duplicates in either orientation are rejected
 			if rng.Intn(3) == 0 {
 				prev := order[rng.Intn(len(added))]
@@ -360,8 +381,8 @@ func c16Case(r *obs.Run, i int) {
 						fail("mate-link", "feature "+idn+" lost its mate link", nil)
 						return
 					}
-					if (im.ID[len(im.ID)-1] == 'A') == (im.Mate().ID[len(im.Mate().ID)-1] == 'A') || im.ID[:len(im.ID)-1] != im.Mate().ID[:len(im.Mate().ID)-1] {
-						fail("mate-link", "feature "+idn+" is mated to "+im.Mate().ID, nil)
+					if im.Mate() != mateOf[im] {
+						fail("mate-link", "feature "+idn+" is mated to "+im.Mate().ID+", which is not the other image of its pair", nil)
 						return
 					}
 					if im.Start() < pl.From || im.End() > pl.To {
